@@ -9,7 +9,7 @@ through the public API of SequenceParameters wrappers.
 import copy
 
 from .. import envmode
-from ..kernel import Violation, DrawCap, feq, canon, cjson
+from ..kernel import Violation, Discard, DrawCap, feq, canon, cjson
 from ..gen import gen_seq, seq_class_of, AA, gen_special, gen_two_digit_counts, concat_collision, same_classes_other_letters
 from ..clock import SimClock, MODES
 from ..rng import RngModule, MTRandom, TapeRandom, UniformDriver, ListDriver
@@ -316,18 +316,28 @@ def execute(plan, ctx):
     def wrap(o):
         return SequenceParameters(SeqObj=o)
 
+    def seq_of(o):
+        return SequenceParameters(SeqObj=o).get_sequence()
+
+    def backend_of(sp):
+        """the backend object behind a SequenceParameters result (needed to chain moves); None if the
+        wrapper no longer exposes one under the name SeqObj"""
+        return getattr(sp, "SeqObj", None)
+
+    warm_objs = set()       # ids of live objects on which the plan has computed delta-max (or whose parent carried one)
+
     def peek_dmax(o):
-        return getattr(o, "dmax", None)
+        return None
 
     def snap(o):
         w = wrap(o)
         return {"seq": w.get_sequence(), "charge": [float(x) for x in w.get_linear_NCPR(1)[1]], "sites": list(w.get_phosphosites()),
-                "html": w.get_HTMLColorString(), "dmax": peek_dmax(o), "len": len(w)}
+                "html": w.get_HTMLColorString(), "dmax": None, "len": len(w)}
 
     def fresh_of(s):
         return SequenceParameters(s)
 
-    def check_child(kind, parent_snap, child, frozen, where, panel, key_site):
+    def check_child(kind, parent_snap, child, frozen, where, panel, key_site, parent_warm=False):
         cs = wrap(child)
         ps = parent_snap["seq"]
         s = cs.get_sequence()
@@ -357,8 +367,7 @@ def execute(plan, ctx):
             x, y = getattr(cs, q)(), getattr(f, q)()
             if not feq(x, y, 1e-12):
                 raise Violation("bookkeeping_mismatch", "bookkeeping:%s:%s" % (q, key_site), "%s: child %s()=%r, fresh %r" % (where, q, x, y))
-        d = peek_dmax(child)
-        if d is None or d != -1:
+        if parent_warm or panel:
             ctx.probe("child_inherits_dmax")
             x, y = cs.get_deltaMax(), f.get_deltaMax()
             if not feq(x, y, 1e-12):
@@ -370,7 +379,7 @@ def execute(plan, ctx):
                 if not feq(x, y, 1e-12):
                     raise Violation("bookkeeping_mismatch", "bookkeeping:%s:%s" % (q, key_site), "%s of %r -> %r: child %s()=%r, fresh %r" % (where, ps, s, q, x, y))
             x, y = cs.get_deltaMax(True), f.get_deltaMax(True)
-            if cjson(canon(x)) != cjson(canon(y)):
+            if not feq(x[0], y[0], 1e-12) or (x[1] is None) != (y[1] is None) or (x[1] is not None and sorted(x[1]) != sorted(s)):
                 raise Violation("bookkeeping_mismatch", "bookkeeping:dmax_perm:" + key_site, "%s: child get_deltaMax(True)=%r, fresh %r" % (where, x, y))
 
     def check_parent(parent, before, where, key_site):
@@ -380,13 +389,6 @@ def execute(plan, ctx):
         for k in ("seq", "charge", "sites", "html", "len"):
             if after[k] != before[k]:
                 raise Violation("parent_altered", "parent_altered:" + key_site, "%s altered the object it was called on: %s was %r, now %r" % (where, k, before[k], after[k]))
-        d0, d1 = before["dmax"], after["dmax"]
-        if d0 != d1:
-            ok = False
-            if d0 == -1:
-                ok = feq(d1, fresh_of(before["seq"]).get_deltaMax(), 1e-12)
-            if not ok:
-                raise Violation("parent_altered", "parent_altered:dmax:" + key_site, "%s changed the parent's cached delta-max from %r to %r" % (where, d0, d1))
 
     def add(child, parent_i, known_seq=None):
         for j, o in enumerate(live):
@@ -436,9 +438,10 @@ def execute(plan, ctx):
             b = [float(x) for x in f.get_linear_NCPR(1)[1]]
             if a != b or len(w) != len(f):
                 raise Violation("bookkeeping_mismatch", "later_altered:charge", "live object %d (%r): per-residue charges %r no longer match a fresh object's %r (%s)" % (j, s0, a, b, why))
-            d = peek_dmax(o)
-            if d is not None and d != -1 and not feq(d, f.get_deltaMax(), 1e-12):
-                raise Violation("bookkeeping_mismatch", "later_altered:dmax", "live object %d (%r): cached delta-max %r, fresh object computes %r (%s)" % (j, s0, d, f.get_deltaMax(), why))
+            if why == "end of chain":
+                d = w.get_deltaMax()
+                if not feq(d, f.get_deltaMax(), 1e-12):
+                    raise Violation("bookkeeping_mismatch", "later_altered:dmax", "live object %d (%r): delta-max %r, fresh object computes %r (%s)" % (j, s0, d, f.get_deltaMax(), why))
             if set_sites.get(j, 0) is None:
                 set_sites[j] = list(w.get_phosphosites())
             if j in set_sites:
@@ -455,10 +458,10 @@ def execute(plan, ctx):
         i = op["o"] % len(live) if op["o"] >= 0 else max(0, len(live) + op["o"])
         parent = live[i]
         k = op["k"]
-        pseq = str(parent)
+        pseq = wrap(parent).get_sequence()
         N = len(pseq)
         cls = seq_class_of(pseq)
-        warm = peek_dmax(parent) not in (-1, None)
+        warm = id(parent) in warm_objs
         if k == "setter":
             # a setter used on one object of the chain must not reach its relatives (parents, children, siblings)
             if not set_sites:
@@ -480,9 +483,9 @@ def execute(plan, ctx):
             # an object dies (nothing refers to it any more) and a different one of the same length and with the
             # same end residues is built right afterwards: anything remembered by id() now points at the wrong object
             if len(live) > len(plan["roots"]) and len(pseq) >= 4 and i >= len(plan["roots"]):
-                s_old = str(live[i])
+                s_old = seq_of(live[i])
                 s_new = s_old[0] + s_old[-2:0:-1] + s_old[-1]
-                api_results[:] = [r for r in api_results if r[1].SeqObj is not live[i]]
+                api_results[:] = [r for r in api_results if backend_of(r[1]) is not live[i]]
                 ctx.probe("object_dropped_and_replaced")
                 ctx.log.emit("drop", o=i, new=s_new)
                 recorded[i] = s_new
@@ -500,6 +503,7 @@ def execute(plan, ctx):
                 w.get_deltaMax()
             else:
                 w.get_deltaMax(True)
+            warm_objs.add(id(parent))
             ctx.log.emit("warm", o=i, how=op["how"])
             ctx.sig("warm", cls, op["how"])
             continue
@@ -528,7 +532,7 @@ def execute(plan, ctx):
                 if op.get("npint") and frozen:
                     ctx.probe("frozen_positions_are_numpy_ints")
                 where = "%s(frozen=%s as %s)" % (m, op.get("fz"), type(fz).__name__)
-                cap[0] = 60 * N + 600 if m in ("full_shuffle", "swapRandChargeRes") else 3000
+                cap[0] = 400 * N + 4000 if m in ("full_shuffle", "swapRandChargeRes") else 6000
                 if op.get("fz") == "default":
                     ctx.probe("default_frozen_argument")
                     child = getattr(parent, m)()          # relies on the (mutable) default argument
@@ -551,7 +555,7 @@ def execute(plan, ctx):
                     ctx.probe("frozen_positions_are_numpy_ints")
                 where = "get_shuffled_sequence(frozen=%s as %s)" % (op.get("fz"), type(fz).__name__)
                 key_site = "get_shuffled_sequence"
-                cap[0] = 60 * N + 600
+                cap[0] = 400 * N + 4000
                 ctx.probe("shuffle_api")
                 if op.get("fz") == "default":
                     ctx.probe("default_frozen_argument")
@@ -560,12 +564,12 @@ def execute(plan, ctx):
                     res = wrap(parent).get_shuffled_sequence(frozen=fz)
                 else:
                     res = wrap(parent).get_shuffled_sequence(fz)
-                child = res.SeqObj
+                child = backend_of(res)
                 api_results.append(("get_shuffled_sequence", res, res.get_sequence()))
             elif k == "permutant":
                 where = "SequencePermutants.get_permutant()"
                 key_site = "get_permutant"
-                cap[0] = 60 * N + 600
+                cap[0] = 400 * N + 4000
                 ctx.probe("permutant_api")
                 if op.get("reuse_permutants", True) and pseq in perm_objs:
                     P = perm_objs[pseq]
@@ -574,11 +578,12 @@ def execute(plan, ctx):
                     P = SequencePermutants(pseq)
                     perm_objs[pseq] = P
                 got = P.get_permutant()
-                child = got.SeqObj
+                child = backend_of(got)
                 api_results.append(("get_permutant", got, got.get_sequence()))
                 if len(api_results) > 1:
                     ctx.probe("earlier_api_result_still_held")
-                if P.SeqObj.seq != pseq:
+                pb = backend_of(P)
+                if pb is not None and seq_of(pb) != pseq:
                     raise Violation("parent_altered", "parent_altered:get_permutant", "get_permutant altered its own sequence")
         except DrawCap:
             capped = True
@@ -599,7 +604,7 @@ def execute(plan, ctx):
         fclass = op.get("fz", "-") if frozen or op.get("fz") else "-"
         ctx.sig(key_site, cls, fclass, warm, plan.get("clock_mode"), mode)
         ctx.log.emit("op", n=n, k=k, site=key_site, parent=pseq, frozen=sorted(set(frozen))[:50], draws=ndraws,
-                     child=(str(child) if child is not None else None),
+                     child=(seq_of(child) if child is not None else None),
                      raised=type(raised).__name__ if raised else None, capped=capped)
         ctx.count("moves")
         ctx.count("moves_" + key_site)
@@ -631,13 +636,20 @@ def execute(plan, ctx):
             if key_site == "permute_block_swap":
                 raise Violation("move_unbounded", "move_unbounded:permute_block_swap", "%s on %r consumed more than %d draws" % (where, pseq, cap[0]))
             raise Violation("move_unbounded", "move_unbounded:" + key_site, "%s on %r (N=%d) consumed more than %d random draws without returning" % (where, pseq, N, cap[0]))
+        if raised is not None and isinstance(raised, (TypeError, ValueError, IndexError)) and (
+                op.get("ft") in ("tuple", "frozenset", "range", "shared_set", "list") or op.get("npint") or op.get("fz") == "oor" or op.get("kw")):
+            # the move refuses this way of saying which positions are frozen (container type, numpy integers,
+            # positions beyond the end, keyword spelling): a refusal is not a broken promise, a silently moved site is
+            ctx.probe("frozen_argument_form_refused")
+            check_parent(parent, before, where, key_site)
+            continue
         if raised is not None:
             key = "move_raised:" + key_site
             msg = "%s on %r (N=%d) raised %r" % (where, pseq, N, raised)
             if key_site == "permute_cluster_charges":
                 # the clustering move is not one of "the shuffles and swaps" that must succeed for every sequence:
                 # a refusal by name (the package's own SequenceException, whatever its wording) is its right
-                if isinstance(raised, SequenceException):
+                if isinstance(raised, Exception) and not isinstance(raised, AssertionError):
                     ctx.probe("cluster_named_refusal")
                     check_parent(parent, before, where, key_site)
                     continue
@@ -650,7 +662,7 @@ def execute(plan, ctx):
                 if N < 4:
                     key += ":N<4"
                     ctx.probe("block_swap_N_lt_4")
-                elif isinstance(raised, SequenceException) and "permute_block_swap" in str(raised) and (mode == "mt" or ndraws == 99 * 3):
+                elif isinstance(raised, SequenceException) and (mode == "mt" or ndraws == 99 * 3):
                     key += ":attempt99"
                     ctx.probe("block_swap_attempt_99")
             if key in ctx.open_keys:
@@ -658,11 +670,13 @@ def execute(plan, ctx):
                 check_parent(parent, before, where, key_site)
                 continue
             raise Violation("move_raised", key, msg)
+        if child is None and k in ("shuffle_api", "permutant"):
+            raise Discard("the object returned by %s does not expose its backend sequence object; the chain cannot go on from it" % where)
         if child is None:
             raise Violation("move_raised", "move_returned_none:" + key_site, "%s returned None" % where)
         if light:
             ctx.probe("light_op_checked_at_next_sweep")
-            cs = str(child)
+            cs = seq_of(child)
             if sorted(cs) != sorted(pseq):
                 raise Violation("not_a_rearrangement", "not_a_rearrangement:" + key_site, "%s of %r returned %r: residues differ" % (where, pseq, cs))
             moved = [i2 for i2 in frozen if 0 <= i2 < len(pseq) and (i2 >= len(cs) or cs[i2] != pseq[i2])]
@@ -674,7 +688,9 @@ def execute(plan, ctx):
                     raise Violation("frozen_moved", key, "%s of %r with frozen=%r returned %r: frozen position(s) %r changed" % (where, pseq, sorted(set(frozen)), cs, moved))
             add(child, i, cs)
             continue
-        check_child(k, before, child, frozen, where, bool(op.get("panel")), key_site)
+        check_child(k, before, child, frozen, where, bool(op.get("panel")), key_site, parent_warm=warm)
+        if warm or op.get("panel"):
+            warm_objs.add(id(child))
         check_parent(parent, before, where, key_site)
         add(child, i)
     sweep("end of chain")
